@@ -6,6 +6,8 @@ import (
 	"encoding/hex"
 	"encoding/json"
 	"fmt"
+	cbornode "github.com/ipfs/go-ipld-cbor"
+	mh "github.com/multiformats/go-multihash"
 	"os"
 	"sort"
 	"time"
@@ -539,7 +541,9 @@ var tamperFields = []string{"payload", "clock.time", "clock.id", "next", "refs",
 	"identity.signatures.id", "identity.signatures.publicKey", "identity.type", "id", "hash", "hash-alias", "v",
 	// not mutations: a genuine, correctly signed and addressed entry of the same writer for another database
 	// (an unrelated one, and one that shares the manifest and differs in the path only)
-	"foreign-db", "sibling-db"}
+	"foreign-db", "sibling-db",
+	// the genuine entry in another encoding (one more map key, which decoders ignore): another block, another address
+	"reencoded"}
 
 func flip(b []byte) []byte {
 	o := append([]byte{}, b...)
@@ -662,7 +666,33 @@ func runTamper(in *AuthInput, res *Result) {
 					if field == "hash-alias" && pos == "head-rehashed" {
 						return // identical to the genuine entry
 					}
-					if pos != "head" && field != "hash-alias" {
+					if field == "reencoded" {
+						if pos == "head-rehashed" {
+							return
+						}
+						raw, ok := a.w1.P.RawBlock(e2.GetHash())
+						if !ok {
+							res.Inconclusive = append(res.Inconclusive, bid+": no block of the genuine entry")
+							return
+						}
+						var fields map[string]interface{}
+						if err := cbornode.DecodeInto(raw, &fields); err != nil {
+							res.Inconclusive = append(res.Inconclusive, bid+": decode: "+err.Error())
+							return
+						}
+						fields["zz"] = 1
+						nd, err := cbornode.WrapObject(fields, mh.SHA2_256, -1)
+						if err != nil {
+							res.Inconclusive = append(res.Inconclusive, bid+": encode: "+err.Error())
+							return
+						}
+						for _, n := range []*sim.Node{a.x, a.w1, a.w2} {
+							n.P.PutBlock(nd.Cid(), nd.RawData())
+						}
+						m = e2.Copy().(*entry.Entry)
+						m.Hash = nd.Cid()
+					}
+					if pos != "head" && field != "hash-alias" && field != "reencoded" {
 						if err := rehash(ctx, a.x, m); err != nil {
 							// cannot even be encoded: nothing to deliver
 							res.Stats["unencodable"]++
